@@ -174,17 +174,19 @@ theorem regular_ops_cost (op : Nat) (h : op < 256) (h1 : isExt op = false) (h2 :
   exact regular_ops_cost_table op h h1 h2 h3
 
 /-- the cost returned by the lookup is at least the table's static cost -/
-theorem gasLookUp_ge_static (info : Gen.Gas.OpInfo) (s : Frame) (c : Nat) (s1 : Frame)
-    (h : (gasLookUp info s).val = (some c, s1)) : info.static ≤ c := by
+theorem gasLookUp_ge_static (info : Gen.Gas.OpInfo) (s : Frame) (c : Nat × Nat) (s1 : Frame)
+    (h : (gasLookUp info s).val = (some c, s1)) : info.static ≤ c.1 := by
   unfold gasLookUp at h
   split at h
   · rw [pure_val] at h
     simp at h
-    omega
+    rw [← h.1]
+    exact Nat.le_refl _
   · obtain ⟨g, s0, _, h2⟩ := bind_some h
     rw [pure_val] at h2
     simp at h2
-    omega
+    rw [← h2.1]
+    exact Nat.le_add_right _ _
 
 theorem chargeOrStop_true (c : Nat) (s s2 : Frame) (h : (chargeOrStop c s).val = (some true, s2)) :
     c ≤ s.gas ∧ s2.gas = s.gas - c := by
@@ -242,8 +244,11 @@ theorem stepBody_strict (env : Env) (op : Nat) (hop : op < 256) (hext : isExt op
   | true =>
     simp at h
     obtain ⟨c, s3, h3, h4⟩ := bind_some h
-    obtain ⟨hle, hgas⟩ := chargeOrStop_true cost s1 s2 h2
-    have i3 : Inv s2 s3 := inv_of h3
+    obtain ⟨hle, hgas⟩ := chargeOrStop_true cost.1 s1 s2 h2
+    -- the memory expansion between the charge and the instruction
+    obtain ⟨_, s2', hx, h3⟩ := bind_some h3
+    have ix : Inv s2 s2' := inv_of hx
+    have i3 : Inv s2' s3 := inv_of h3
     have i4 : Inv s3 s' := inv_of h4
     have i2 : s2.gas ≤ s1.gas := by omega
     unfold exec at h3
@@ -251,25 +256,25 @@ theorem stepBody_strict (env : Env) (op : Nat) (hop : op < 256) (hext : isExt op
     cases hh : isHalting op with
     | true =>
       simp [hh] at h3
-      obtain ⟨r, hr⟩ := execHalt_halts op s2 c s3 h3
+      obtain ⟨r, hr⟩ := execHalt_halts op s2' c s3 h3
       subst hr
       exact absurd h4 (finish_halt_not_cont r s3 s')
     | false =>
       cases hf : isFree op with
       | true =>
         simp [hh, hf] at h3
-        have st : Strict s2 s3 := execFree_strict env op s2 c s3 h3
-        have st' : Strict s2 s' := st.then_inv i4
+        have st : Strict s2' s3 := execFree_strict env op s2' c s3 h3
+        have st' : Strict s2' s' := st.then_inv i4
         cases st' with
-        | inl hlt => left; have := i1.1; omega
+        | inl hlt => left; have := i1.1; have := ix.1; omega
         | inr he => right; exact he
       | false =>
         -- obtain the lookup result: cost ≥ static ≥ 1
         obtain ⟨_, s0, _, hl⟩ := bind_some h1
-        have hc : (opInfo op).static ≤ cost := gasLookUp_ge_static _ _ _ _ hl
+        have hc : (opInfo op).static ≤ cost.1 := gasLookUp_ge_static _ _ _ _ hl
         have h1' : 1 ≤ (opInfo op).static := regular_ops_cost op hop hext hh hf
         left
-        have := i1.1; have := i3.1; have := i4.1
+        have := i1.1; have := ix.1; have := i3.1; have := i4.1
         omega
 
 theorem opAt_lt (env : Env) (pc : Nat) : opAt env pc < 256 := by
@@ -337,12 +342,12 @@ theorem run_terminates (env : Env) (s : Frame) (s' : Frame) : run env (s.gas + 2
 
 /-- (e) when the cost found for the next instruction exceeds what is left, the iteration ends the frame with
     InsufficientGas, returns nothing and does not touch the remaining gas -/
-theorem oog_reported (env : Env) (op : Nat) (s s1 : Frame) (cost : Nat)
-    (hl : ((noteSeen op >>= fun _ => gasLookUp (opInfo op)) s).val = (some cost, s1)) (hlt : s1.gas < cost) :
+theorem oog_reported (env : Env) (op : Nat) (s s1 : Frame) (cost : Nat × Nat)
+    (hl : ((noteSeen op >>= fun _ => gasLookUp (opInfo op)) s).val = (some cost, s1)) (hlt : s1.gas < cost.1) :
     (stepBody env op s).val = (some (.done .empty (some .insufficientGas)), s1) := by
   unfold stepBody
   rw [bind_val_of_some hl]
-  have hc : (chargeOrStop cost s1).val = (some false, s1) := by
+  have hc : (chargeOrStop cost.1 s1).val = (some false, s1) := by
     unfold chargeOrStop
     split
     · omega
